@@ -451,7 +451,18 @@ namespace Pistache::Http::Experimental
                 }
             }
             if (connection)
+            {
+                // The answer to the request that timed out may still arrive; it must
+                // not be taken for the answer to the next request on this
+                // connection. The connection is given up and established again when
+                // it is used next.
+                if (connection->isConnected())
+                {
+                    connections.erase(connection->fd());
+                    connection->close();
+                }
                 connection->handleTimeout();
+            }
         }
     }
 
@@ -717,6 +728,10 @@ namespace Pistache::Http::Experimental
 
     void Connection::handleTimeout()
     {
+        // what was received of the response that did not come in time must not be
+        // taken for the beginning of the next response
+        parser.reset();
+
         auto entry = takeRequestEntry();
         if (entry)
         {
@@ -759,6 +774,14 @@ namespace Pistache::Http::Experimental
                 requestsQueue.push(RequestData(std::move(resolve), std::move(reject),
                                                request, std::move(onDone)));
             });
+    }
+
+    void Connection::performWhenConnected(const Http::Request& request,
+                                          Async::Resolver resolve, Async::Rejection reject,
+                                          Connection::OnDone onDone)
+    {
+        requestsQueue.push(RequestData(std::move(resolve), std::move(reject),
+                                       request, std::move(onDone)));
     }
 
     void Connection::performImpl(const Http::Request& request,
@@ -1120,7 +1143,13 @@ namespace Pistache::Http::Experimental
         // Requests are taken from the queues under the lock but performed without
         // it: a request that fails at once is completed synchronously and comes
         // back here for the next one.
-        std::vector<std::pair<std::shared_ptr<Connection>, std::shared_ptr<Connection::RequestData>>> ready;
+        struct Ready
+        {
+            std::shared_ptr<Connection> conn;
+            std::shared_ptr<Connection::RequestData> data;
+            std::string domain;
+        };
+        std::vector<Ready> ready;
 
         {
             Guard guard(queuesLock);
@@ -1145,20 +1174,32 @@ namespace Pistache::Http::Experimental
                         break;
                     }
 
-                    ready.emplace_back(conn, data);
+                    ready.push_back(Ready { conn, data, domain });
                 }
             }
         }
 
         for (auto& entry : ready)
         {
-            auto conn = entry.first;
-            auto data = entry.second;
-            conn->performImpl(data->request, std::move(data->resolve),
-                              std::move(data->reject), [this, conn]() {
-                                  pool.releaseConnection(conn);
-                                  processRequestQueue();
-                              });
+            auto conn   = entry.conn;
+            auto data   = entry.data;
+            auto onDone = [this, conn]() {
+                pool.releaseConnection(conn);
+                processRequestQueue();
+            };
+            if (conn->isConnected())
+            {
+                conn->performImpl(data->request, std::move(data->resolve),
+                                  std::move(data->reject), std::move(onDone));
+            }
+            else
+            {
+                // the connection has been closed since it was last used: it is
+                // established again first, as for a request that finds it idle
+                conn->performWhenConnected(data->request, std::move(data->resolve),
+                                           std::move(data->reject), std::move(onDone));
+                conn->connect(helpers::httpAddr(entry.domain));
+            }
         }
     }
 
